@@ -12,10 +12,10 @@ func init() {
 	addStages("C02", "exploration", e2,
 		Stage{Engine: "clusterrun", Mode: "learner", BatchesQ: 6, BatchesT: 12, Par: 6, TimeoutQ: 900, TimeoutT: 3600})
 	addStages("C11", "exploration", e2,
-		Stage{Engine: "clusterrun", Mode: "contract", Race: true, BatchesQ: 6, BatchesT: 12, Par: 6, TimeoutQ: 900, TimeoutT: 5400,
+		Stage{Engine: "clusterrun", Mode: "contract", Race: true, BatchesQ: 12, BatchesT: 16, Par: 12, TimeoutQ: 900, TimeoutT: 5400,
 			RaceAttr: []string{"cluster.(*SMInst)", "cluster.(*regularSM)", "cluster.(*concurrentSM)", "cluster.(*onDiskSM)"}})
 	addStages("C12", "exploration", e2,
-		Stage{Engine: "clusterrun", Mode: "requests", Race: true, BatchesQ: 6, BatchesT: 12, Par: 6, TimeoutQ: 900, TimeoutT: 5400,
+		Stage{Engine: "clusterrun", Mode: "requests", Race: true, BatchesQ: 12, BatchesT: 16, Par: 12, TimeoutQ: 900, TimeoutT: 5400,
 			RaceAttr: []string{"(*RequestState)", "(*pendingProposal)", "(*proposalShard)", "(*pendingReadIndex)", "(*pendingConfigChange)", "(*pendingSnapshot)", "(*pendingRaftLogQuery)"}})
 }
 
